@@ -44,6 +44,9 @@ func isAllowedPossibleValue(opt *Option, value interface{}) error {
 	if opt.PossibleValues == nil {
 		return nil
 	}
+	if value == nil {
+		return errors.New("value is not allowed")
+	}
 
 	for _, val := range opt.PossibleValues {
 		compareAgainst := val.Value
